@@ -130,6 +130,22 @@ def gen_project(rng, idx, W, min_occ):
     for name, fb in zip(names, fbs):
         text = "\n".join(fb.lines) + "\n"
         files[name] = text
+    # boundary file: its countable lines are exactly one occurrence of a run (plus comment / blank / import lines)
+    for ri, r in enumerate(runs):
+        if rng.random() < 0.35:
+            lang = "py" if r["family"] == "py" else "ts"
+            cmt = "#" if lang == "py" else "//"
+            lines = ["%s tiny module %d" % (cmt, fresh()), ""]
+            if lang == "py":
+                lines.append("import os")
+            first = len(lines) + 1
+            lines += [stmt(lang, sid) for sid in r["ids"]]
+            last = len(lines)
+            lines.append("")
+            name = "%s/tiny%d_%d.%s" % ("src" if ri % 2 == 0 else "lib", idx, ri, lang)
+            files[name] = "\n".join(lines) + "\n"
+            r["places"].append([name, first, last])
+            r["M"] += 1
     return files, runs
 
 
